@@ -3,6 +3,7 @@ CONSTANTS Vars <- VarsXY
  Kinds <- KindsC16
  LitIdx <- LitsSmall
  Imports <- NoImports
+ Shape = "free"
  Emit = TRUE
 SPECIFICATION Spec
 INVARIANTS AlgoRefinesPython Fresh EmitCase
